@@ -4,7 +4,7 @@ import JellyModel.Joint
 
 Reusable facts about `Lookup`, `LookupEnc` and `LookupDec`:
 
-* `Lookup.WF`   – permutation-invariant well-formedness of the writer table
+* `Lookup.WFm`   – permutation-invariant well-formedness of the writer table
 * `Mirror e d`  – every resident writer entry `(key, index)` is stored in slot `index - 1` of the reader
 * `LookupEnc.entryIndex_spec` – `entryIndex` never fails on a mirrored pair, preserves `Mirror` (after the
   reader ingested the emitted entry, if any), emits ids `≤ size` and leaves the key resident
@@ -16,7 +16,7 @@ namespace Jelly
 /-! ## Definitions -/
 
 /-- Well-formedness of the writer table, stated so that it is invariant under permutation of `data`. -/
-structure Lookup.WF (l : Lookup) : Prop where
+structure Lookup.WFm (l : Lookup) : Prop where
   pos : 0 < l.maxSize
   keysNodup : (l.data.map (·.1)).Nodup
   idxPerm : (l.data.map (·.2)).Perm (List.range' 1 l.data.length)
@@ -25,7 +25,7 @@ structure Lookup.WF (l : Lookup) : Prop where
 
 /-- The reader table mirrors the writer table. -/
 structure Mirror (e : LookupEnc) (d : LookupDec) : Prop where
-  wf : e.lookup.WF
+  wf : e.lookup.WFm
   size : d.size = e.lookup.maxSize
   len : d.data.length = e.lookup.maxSize
   la : e.lastAssigned = d.lastAssigned
@@ -33,21 +33,21 @@ structure Mirror (e : LookupEnc) (d : LookupDec) : Prop where
 
 /-! ## Basic facts on `WF` -/
 
-theorem Lookup.WF.idx_range {l : Lookup} (wf : l.WF) {k i} (h : (k, i) ∈ l.data) :
+theorem Lookup.WFm.idx_range {l : Lookup} (wf : l.WFm) {k i} (h : (k, i) ∈ l.data) :
     1 ≤ i ∧ i ≤ l.data.length := by
   have h1 : i ∈ l.data.map (·.2) := List.mem_map.mpr ⟨(k, i), h, rfl⟩
   have h2 := (wf.idxPerm.mem_iff).mp h1
   simp [List.mem_range'] at h2
   omega
 
-theorem Lookup.WF.idx_le_max {l : Lookup} (wf : l.WF) {k i} (h : (k, i) ∈ l.data) :
+theorem Lookup.WFm.idx_le_max {l : Lookup} (wf : l.WFm) {k i} (h : (k, i) ∈ l.data) :
     1 ≤ i ∧ i ≤ l.maxSize := by
   have := wf.idx_range h
   have := wf.lenLe
   omega
 
-theorem Lookup.WF.of_perm {l l' : Lookup} (wf : l.WF) (hp : l'.data.Perm l.data)
-    (hm : l'.maxSize = l.maxSize) (he : l'.evicting = l.evicting) : l'.WF := by
+theorem Lookup.WFm.of_perm {l l' : Lookup} (wf : l.WFm) (hp : l'.data.Perm l.data)
+    (hm : l'.maxSize = l.maxSize) (he : l'.evicting = l.evicting) : l'.WFm := by
   have hl := hp.length_eq
   refine ⟨hm ▸ wf.pos, ?_, ?_, ?_, ?_⟩
   · exact ((hp.map _).nodup_iff).mpr wf.keysNodup
@@ -55,7 +55,7 @@ theorem Lookup.WF.of_perm {l l' : Lookup} (wf : l.WF) (hp : l'.data.Perm l.data)
   · rw [hl, hm]; exact wf.lenLe
   · rw [he, hl, hm]; exact wf.ev
 
-theorem Lookup.WF.new {n : Nat} (h : 0 < n) : (Lookup.new n).WF := by
+theorem Lookup.WFm.new {n : Nat} (h : 0 < n) : (Lookup.new n).WFm := by
   refine ⟨h, ?_, ?_, ?_, ?_⟩
   · simp [Lookup.new]
   · simp [Lookup.new]
@@ -79,7 +79,7 @@ theorem find?_key_of_mem {xs : List (String × Nat)} (nd : (xs.map (·.1)).Nodup
       rw [hx']
       exact ih nd.2 h
 
-theorem Lookup.WF.find?_of_mem {l : Lookup} (wf : l.WF) {k i} (h : (k, i) ∈ l.data) :
+theorem Lookup.WFm.find?_of_mem {l : Lookup} (wf : l.WFm) {k i} (h : (k, i) ∈ l.data) :
     l.find? k = some (k, i) :=
   find?_key_of_mem wf.keysNodup h
 
@@ -130,8 +130,8 @@ theorem Lookup.moveToEnd_some_mem {l l' : Lookup} {k} (h : l.moveToEnd k = some 
     exact ⟨i, hmem, hp.mem_iff.mpr hmem⟩
 
 /-- On a resident key `moveToEnd` succeeds, keeps the index of the key and only permutes `data`. -/
-theorem Lookup.WF.moveToEnd_resident {l : Lookup} (wf : l.WF) {k i} (h : (k, i) ∈ l.data) :
-    ∃ l', l.moveToEnd k = some l' ∧ l'.WF ∧ l'.data.Perm l.data ∧ l'.maxSize = l.maxSize ∧
+theorem Lookup.WFm.moveToEnd_resident {l : Lookup} (wf : l.WFm) {k i} (h : (k, i) ∈ l.data) :
+    ∃ l', l.moveToEnd k = some l' ∧ l'.WFm ∧ l'.data.Perm l.data ∧ l'.maxSize = l.maxSize ∧
       l'.evicting = l.evicting ∧ (k, i) ∈ l'.data ∧ l'.find? k = some (k, i) := by
   have hf := wf.find?_of_mem h
   have hm : l.moveToEnd k = some { l with data := l.data.erase (k, i) ++ [(k, i)] } := by
@@ -178,7 +178,7 @@ theorem Mirror.set_lastReused {e : LookupEnc} {d : LookupDec} (m : Mirror e d) (
 
 theorem Mirror.init {n : Nat} (h : 0 < n) :
     Mirror (LookupEnc.new n) { size := n, data := List.replicate n none } := by
-  refine ⟨Lookup.WF.new h, rfl, ?_, rfl, ?_⟩
+  refine ⟨Lookup.WFm.new h, rfl, ?_, rfl, ?_⟩
   · simp [LookupEnc.new, Lookup.new]
   · intro k i hki
     simp [LookupEnc.new, Lookup.new] at hki
@@ -197,7 +197,7 @@ theorem Mirror.entry_hit {e : LookupEnc} {d : LookupDec} {k} (m : Mirror e d) {l
 
 /-- Shared tail of both insert cases. -/
 theorem Mirror.after_set {e : LookupEnc} {d : LookupDec} {k : String} {i : Nat} {l' : Lookup}
-    (m : Mirror e d) (wf' : l'.WF) (hm : l'.maxSize = e.lookup.maxSize)
+    (m : Mirror e d) (wf' : l'.WFm) (hm : l'.maxSize = e.lookup.maxSize)
     (hi : 1 ≤ i) (hle : i ≤ e.lookup.maxSize)
     (hold : ∀ k' i', (k', i') ∈ l'.data →
       (k', i') = (k, i) ∨ ((k', i') ∈ e.lookup.data ∧ i' ≠ i)) :
@@ -244,7 +244,7 @@ theorem Mirror.entry_miss {e : LookupEnc} {d : LookupDec} {k} (m : Mirror e d)
       simp only [List.map_cons, List.nodup_cons, List.length_cons] at hkeys hidx hevv hlen hr0
       have hidxnd : (i0 :: rest.map (·.2)).Nodup :=
         (hidx.nodup_iff).mpr (List.nodup_range' (step := 1) (by omega))
-      have wf' : ({ e.lookup with data := rest ++ [(k, i0)] } : Lookup).WF := by
+      have wf' : ({ e.lookup with data := rest ++ [(k, i0)] } : Lookup).WFm := by
         refine ⟨wf.pos, ?_, ?_, ?_, ?_⟩
         · simp only [List.map_append, List.map_cons, List.map_nil]
           refine List.nodup_append.mpr ⟨hkeys.2, by simp, ?_⟩
@@ -283,7 +283,7 @@ theorem Mirror.entry_miss {e : LookupEnc} {d : LookupDec} {k} (m : Mirror e d)
                         (e.lookup.data.length + 1 == e.lookup.maxSize)⟩
     have hrv : e.lookup.insert k = .ok (l2, e.lookup.data.length + 1) := by
       simp only [Lookup.insert, hpos, hev']; rfl
-    have wf' : l2.WF := by
+    have wf' : l2.WFm := by
       refine ⟨wf.pos, ?_, ?_, ?_, ?_⟩
       all_goals dsimp only [l2]
       · simp only [List.map_append, List.map_cons, List.map_nil]
@@ -340,10 +340,10 @@ theorem LookupEnc.entryIndex_spec {e : LookupEnc} {d : LookupDec} (m : Mirror e 
 
 /-- `termIndex` on a resident key returns its index, records it in `lastReused`, keeps WF/Mirror and
     only permutes `data`. -/
-theorem LookupEnc.termIndex_resident {e : LookupEnc} (wf : e.lookup.WF) {k i}
+theorem LookupEnc.termIndex_resident {e : LookupEnc} (wf : e.lookup.WFm) {k i}
     (h : (k, i) ∈ e.lookup.data) :
     ∃ l', e.termIndex k = .ok ({ e with lookup := l', lastReused := i }, i) ∧
-      l'.WF ∧ l'.data.Perm e.lookup.data ∧ l'.maxSize = e.lookup.maxSize ∧
+      l'.WFm ∧ l'.data.Perm e.lookup.data ∧ l'.maxSize = e.lookup.maxSize ∧
       l'.evicting = e.lookup.evicting ∧ (k, i) ∈ l'.data ∧ 1 ≤ i ∧ i ≤ e.lookup.maxSize := by
   obtain ⟨l', hmv, wf', hp, hmax, hev, hmem, hf⟩ := wf.moveToEnd_resident h
   have hr := wf.idx_le_max h
